@@ -549,6 +549,10 @@ pub fn replay_any(check_name: &str, case: &Value, known: &Known, mode: Mode) -> 
     if check_name == "probe" {
         return c01::replay_any(check_name, case, known);
     }
+    if check_name == "exclusion-spelling" {
+        let c: crate::prop::c09b::ExclCase = serde_json::from_value(case.clone()).ok()?;
+        return Some(crate::prop::c09b::check_exclusion(&c, known));
+    }
     if check_name == "distinct-on-order" {
         let c: crate::prop::c03::DistinctOnCase = serde_json::from_value(case.clone()).ok()?;
         return Some(crate::prop::c03::check_distinct_on(&c, known));
@@ -656,6 +660,7 @@ pub fn run_c09(ctx: &Ctx) -> i32 {
     ctx.tape_search("hazardous-names", ctx.n(8_000, 400_000), 450, |t| gen_case(t, None, true), |c| check_c09(c, &ctx.known));
     ctx.tape_search("relation-alias-chains", ctx.n(4_000, 200_000), 60, crate::prop::c09b::gen_case, |c| crate::prop::c09b::check(c, &ctx.known));
     ctx.tape_search("case-variant-columns", ctx.n(600, 6_000), 20, crate::prop::c09b::gen_case_variant, |c| crate::prop::c09b::check_variant(c, &ctx.known));
+    ctx.enumerate("exclusion-spelling", crate::prop::c09b::exclusion_cases(), |c| crate::prop::c09b::check_exclusion(c, &ctx.known));
     ctx.finish(
         "the relational-core generator with a hazardous name pool for tables, let-tables, relation aliases, column aliases and columns (SQL keywords, spaces, quotes, mixed case, non-ASCII, leading digits, and the generated patterns table_N / _expr_N as user names), in programs that create CTEs and helper columns. Oracle (i): differential execution on SQLite against tables and columns created with exactly those names (a captured or mangled name changes rows or fails to bind). Oracle (ii): for all 12 dialects the emitted SQL must parse and bind case-sensitively against the exact names. non-trivial = a hazardous user name and a generated name both occur; distinct = source text",
         &["case folding of real engines other than SQLite is not executed", "names containing a backtick are outside the statement"],
